@@ -4,9 +4,11 @@ EXTENDS Context, Json
 CONSTANTS Mode, MaxHist, SubVariants, AccSet
 Keys2 == {"leaf", "inner"}
 \* accessors: <<key, flavour>>.  "base": the string and rendered-view flavours of the two keys;  "wide": also the Display flavour
-\* and the formatter accessors (t_format! / t_format_string!, key "fmt": no key path, the text tells the locale apart)
+\* and the formatter accessors (t_format! / t_format_string!, key "fmt": no key path, the text tells the locale apart) and the
+\* subscribers (a Memo / an Effect around t_string!)
 AccOptions == { <<k, f>> : k \in Keys2, f \in {"string", "view"} }
-              \cup (IF AccSet = "wide" THEN { <<"inner", "display">>, <<"fmt", "format">>, <<"fmt", "format_string">> } ELSE {})
+              \cup (IF AccSet = "wide" THEN { <<"inner", "display">>, <<"fmt", "format">>, <<"fmt", "format_string">>,
+                                             <<"leaf", "memo">>, <<"leaf", "effect">> } ELSE {})
 
 \* C15: every creation parameter of the main context, then at most one sub-context with every parameter
 Init15 == InitWith(BOOLEAN, BOOLEAN, Cookies, Headers)
